@@ -32,6 +32,13 @@ def main():
     patch = seed / f"change{k}.diff"
     demo = seed / f"demo{k}.py"
     notes = seed / f"notes{k}.md"
+    # keep a copy of the deliverables first: the seeder's worktree may be removed at any time
+    keep = Path("/verif/.work/seedkeep") / name
+    keep.mkdir(parents=True, exist_ok=True)
+    for f in (patch, demo, notes):
+        if f.exists():
+            shutil.copy(f, keep / f.name)
+    patch, demo, notes = keep / patch.name, keep / demo.name, keep / notes.name
     scratch = Path(tempfile.mkdtemp(prefix="vs-"))
     wt = scratch / "repo"
     out = {"property": prop, "name": name, "source": f"{src} change{k}"}
